@@ -72,6 +72,34 @@ theorem wf_childNodeIndices_boundary (p : Pos) (h6 : p.depth % 6 = 0) : p.childN
     have : p.depth - (p.depth - 1) / 6 * 6 = 6 := by omega
     simp [this]
 
+/-- `is_first_layer_in_page` (`node_index & !1 == 0`) holds exactly on the first layer of a page — and at the root -/
+theorem wf_isFirstLayer (p : Pos) (hw : p.WF) :
+    p.isFirstLayerInPage = true ↔ p.depth = 0 ∨ p.depth % 6 = 1 := by
+  have hl := p.path_length hw
+  unfold Pos.isFirstLayerInPage
+  rw [beq_iff_eq]
+  by_cases h0 : p.depth = 0
+  · have : p.path = [] := by apply List.length_eq_zero_iff.mp; rw [hl, h0]
+    rw [hw.idx, this]
+    simp [specIndex, h0]
+  · have hne : p.path ≠ [] := by intro e; rw [e] at hl; simp at hl; omega
+    have hlay := specIndex_layer p.path hne
+    rw [hl] at hlay
+    rw [hw.idx]
+    by_cases h1 : p.depth % 6 = 1
+    · have hr : specR p.depth = 1 := by unfold specR; omega
+      rw [hr] at hlay
+      have := hlay.2
+      constructor
+      · intro _; exact Or.inr h1
+      · intro _; simp at this; omega
+    · have hr : 2 ≤ specR p.depth := by unfold specR; omega
+      have : 2 ^ 2 ≤ 2 ^ specR p.depth := Nat.pow_le_pow_right (by decide) hr
+      have := hlay.1
+      constructor
+      · intro h; omega
+      · rintro (h | h) <;> omega
+
 theorem wf_subtrieContains (p : Pos) (key : List Bool) : p.subtrieContains key = true ↔ p.path <+: key := by
   unfold Pos.subtrieContains; exact List.isPrefixOf_iff_prefix
 
